@@ -131,9 +131,21 @@ def run(ctx):
     ctx.floor('C04.10', 7, 'wiring facts')
 
 
-def headers_dict_stores(P):
-    """every store that puts a value into a headers_dict (attribute or local alias) -> [(func, node, value expr, kind)]"""
+def _zip_dict(v):
+    """dict(zip(<literal keys>, <values>)) -> (key nodes, values expr) or None"""
+    if isinstance(v, ast.Call) and U(v.func) == 'dict' and len(v.args) == 1 and not v.keywords:
+        z = v.args[0]
+        if isinstance(z, ast.Call) and U(z.func) == 'zip' and len(z.args) == 2 and isinstance(z.args[0], (ast.Tuple, ast.List)):
+            return z.args[0].elts, z.args[1]
+    return None
+
+
+def headers_dict_stores(P, G=None):
+    """every store that puts a value into a headers_dict (attribute or local alias) -> [(func, node, value expr, kind)].
+    A dictionary built by a helper (`self.headers_dict = self.helper(..)`, the helper returns a local) is followed
+    into the helper: the stores to that local count as stores to the dictionary, in the helper's own scope."""
     out = []
+    seen_helpers = set()
     for f in P.functions.values():
         for n in ast.walk(f.node):
             if isinstance(n, ast.Assign):
@@ -141,8 +153,35 @@ def headers_dict_stores(P):
                 if isinstance(t, ast.Subscript) and 'headers_dict' in U(t.value):
                     out.append((f, n, n.value, 'item'))
                 elif isinstance(t, ast.Attribute) and t.attr == 'headers_dict':
-                    out.append((f, n, n.value, 'whole'))
+                    h = _dict_helper(G, f, n.value) if G is not None else None
+                    if h is None:
+                        out.append((f, n, n.value, 'whole'))
+                        continue
+                    g, local = h
+                    for m in ast.walk(g.node):
+                        if isinstance(m, ast.Assign) and len(m.targets) == 1:
+                            t2 = m.targets[0]
+                            if isinstance(t2, ast.Name) and t2.id == local:
+                                # the branch of the caller stays the anchor of the finding; the value is the helper's
+                                out.append((f, n, m.value, 'whole'))
+                            elif isinstance(t2, ast.Subscript) and U(t2.value) == local and g.qualname not in seen_helpers \
+                                    and 'headers_dict' not in local:
+                                out.append((g, m, m.value, 'item'))
+                    seen_helpers.add(g.qualname)
     return out
+
+
+def _dict_helper(G, f, v):
+    """(helper function, name of the local it returns) when v is a call of a package function that returns a local"""
+    if not isinstance(v, ast.Call):
+        return None
+    for e in G.edges_at(f, v):
+        if e.target is None or e.kind != 'direct':
+            continue
+        rets = [r for r in ast.walk(e.target.node) if isinstance(r, ast.Return)]
+        if len(rets) == 1 and isinstance(rets[0].value, ast.Name):
+            return e.target, rets[0].value.id
+    return None
 
 
 def dtypes(ctx):
@@ -151,7 +190,7 @@ def dtypes(ctx):
     if len(sites) < 4:
         raise AnalysisError('footer write sites: found %d, floor 4' % len(sites))
     # (1) values stored into headers_dict anywhere
-    for (f, n, v, kind) in headers_dict_stores(P):
+    for (f, n, v, kind) in headers_dict_stores(P, G):
         if kind == 'item':
             r = is_int32_expr(f, v)
             if r is True:
@@ -172,6 +211,22 @@ def dtypes(ctx):
                         ctx.fail('C04.1', f, n, 'headers_dict[%s] = %s is not known to be int32' % (U(k), U(val)), key_extra=U(k))
             elif isinstance(v, ast.Call) and 'fromkeys' in U(v.func):
                 ctx.ok('C04.1', f, n, 'keys only; values are stored by the item stores checked above', nontrivial=False)
+            elif _zip_dict(v) is not None:
+                keys, vals = _zip_dict(v)
+                r = None
+                if isinstance(vals, ast.Call):
+                    for e in G.edges_at(f, vals):
+                        if e.target is not None:
+                            rets = [x for x in ast.walk(e.target.node) if isinstance(x, ast.Return) and isinstance(x.value, ast.Tuple)]
+                            if rets and all(len(x.value.elts) == len(keys) for x in rets):
+                                r = all(is_int32_expr(e.target, el) is True for x in rets for el in x.value.elts)
+                elif isinstance(vals, (ast.Tuple, ast.List)) and len(vals.elts) == len(keys):
+                    r = all(is_int32_expr(f, el) is True or (isinstance(el, ast.Name) and _from_method_return(P, G, f, el.id))
+                            for el in vals.elts)
+                if r:
+                    ctx.ok('C04.1', f, n, 'dict(zip(keys, arrays)): every array is int32')
+                else:
+                    ctx.fail('C04.1', f, n, 'headers_dict = `%s`: the zipped arrays are not known to be int32' % U(v)[:50])
             elif isinstance(v, ast.Name) and v.id in f.params:
                 # a caller-supplied dictionary: every caller must hand over int32 arrays
                 for e in G.callers(f):
@@ -275,7 +330,7 @@ def order(ctx):
     hw = P.func('headers.HeaderwordInfo.__init__')
     # (a) heuristic branch: list returned by a method whose return is sorted by header code
     n = 0
-    for (f, node, v, kind) in headers_dict_stores(P):
+    for (f, node, v, kind) in headers_dict_stores(P, G):
         if kind != 'whole':
             continue
         n += 1
@@ -317,6 +372,13 @@ def order(ctx):
                                      'header-word order' % txt, line=e.call.lineno)
                 continue
             ctx.fail('C04.2', f, node, 'order of `%s` is unknown' % src)
+        elif _zip_dict(v) is not None:
+            kn = _zip_dict(v)[0]
+            keys = [k.value for k in kn if isinstance(k, ast.Constant)]
+            if len(keys) == len(kn) and keys == sorted(keys):
+                ctx.ok('C04.2', f, node, 'dict(zip(..)) lists its literal keys ascending %s' % keys)
+            else:
+                ctx.fail('C04.2', f, node, 'keys %s of dict(zip(..)) are not ascending literals' % [U(k) for k in kn])
         elif isinstance(v, ast.Dict):
             keys = [k.value for k in v.keys if isinstance(k, ast.Constant)]
             if len(keys) == len(v.keys) and keys == sorted(keys):
